@@ -244,20 +244,42 @@ def crash_signature(log):
     return {'kind': 'panic', 'key': '%s: %s' % (top, what)}
 
 
+ROLE_RE = re.compile(r'\(\*LanguageServer\)\.(Start\w+Worker|Handle)\b|\b(vRunSeq|vRunHistory|TestVerif\w+)\b')
+
+
 def race_signatures(log):
+    """one (signature, report) per race report.  The signature names, for each of the two accesses, which server
+    goroutine(s) it ran under (worker loops / request handler, taken from the access stack and the creation stack of
+    its goroutine) and the function that owns the racing memory access - stable across the many call paths that lead
+    to the same unsynchronised sharing."""
     out = []
     for blk in log.split('WARNING: DATA RACE')[1:]:
         blk = blk.split('==================')[0]
-        fr = re.findall(r'^\s+(github\.com/styrainc/regal/[^\s(]+(?:\([^)]*\))?[^\s(]*)\(', blk, re.M)
-        fr = [re.sub(r'^github\.com/styrainc/regal/', '', f) for f in fr if 'zz_verif' not in f and 'vSrv' not in f]
-        accs = re.findall(r'^(Write|Read|Previous write|Previous read) at', blk, re.M)
-        secs = re.split(r'^(?:Write|Read|Previous write|Previous read) at .*$', blk, flags=re.M)[1:]
-        tops = []
-        for s in secs[:2]:
-            f2 = re.findall(r'^\s+(github\.com/styrainc/regal/[^\s(]+(?:\([^)]*\))?[^\s(]*)\(', s, re.M)
-            f2 = [re.sub(r'^github\.com/styrainc/regal/', '', f) for f in f2 if 'zz_verif' not in f]
-            tops.append(f2[0] if f2 else '?')
-        out.append(({'kind': 'data-race', 'key': ' <-> '.join(sorted(tops))}, blk[:3000]))
+        # sections: two accesses, then "Goroutine N (...) created at:" blocks
+        parts = re.split(r'^(?=(?:Write|Read|Previous write|Previous read|Atomic write|Previous atomic write|Atomic read|'
+                         r'Previous atomic read) at |Goroutine \d+ )', blk, flags=re.M)
+        accesses, created = [], {}
+        for part in parts:
+            m = re.match(r'(Write|Read|Previous write|Previous read|Atomic write|Previous atomic write|Atomic read|'
+                         r'Previous atomic read) at \S+ by (?:goroutine (\d+)|main goroutine)', part)
+            if m:
+                accesses.append((m.group(2) or 'main', part))
+                continue
+            m = re.match(r'Goroutine (\d+) ', part)
+            if m:
+                created[m.group(1)] = part
+        sides = []
+        for gid, part in accesses[:2]:
+            text = part + created.get(gid, '')
+            roles = sorted({(a or b) for a, b in ROLE_RE.findall(text)} - {'vRunSeq', 'vRunHistory'} or {'?'})
+            roles = [r for r in roles if not r.startswith('TestVerif')] or ['harness']
+            frames = re.findall(r'^\s+([\w./\-]+(?:\.\(\*?\w+\))?\.[\w.\-]+)\(\)', part, re.M)
+            owner = next((f for f in frames if not f.startswith(('sync', 'runtime', 'internal/'))), frames[0] if frames else '?')
+            owner = re.sub(r'^github\.com/', '', owner)
+            owner = re.sub(r'@v[0-9.]+', '', owner)
+            owner = re.sub(r'\.(?:\(\*?\w+\)\.)?[\w\-]+(?:\.func\d+)*$', '', owner)       # package only
+            sides.append('%s in %s' % ('+'.join(roles), owner))
+        out.append(({'kind': 'data-race', 'key': ' <-> '.join(sorted(sides))}, blk[:12000]))
     return out
 
 
